@@ -14,6 +14,7 @@ def sortDone : Done → Done
 def showRes : Res → String
   | .response m pl => s!"r{m}/" ++ ".".intercalate (pl.map fun (a, b) => toString a ++ "-" ++ toString b)
   | .err st => s!"e{st}"
+  | .queuedNoResponse => "q"
 
 def showDone (d : Done) : String :=
   "[" ++ ",".intercalate ((sortDone d).map fun (q, r) => toString q ++ ":" ++ showRes r) ++ "]"
@@ -51,13 +52,20 @@ def dstep (s : State) (toks : List String) : State × String :=
       | .idle => "idle"
       | .full => "full"
     (s', s!"ok {t} " ++ showState s' d)
+  | ["submitnr", late] =>
+    match parseBool? late with
+    | some l => let (s', d) := submitNoResponse s l; (s', "ok " ++ showState s' d)
+    | none => (s, "bad-op")
   | ["sweep"] =>
     let (s', d) := sweep s
-    (s', s!"ok next={boolStr (!s'.pending.isEmpty)} " ++ showState s' d)
-  | ["expire", rid] =>
-    match rid.toNat? with
-    | some rid => let (s', b) := expire s rid; (s', s!"ok {boolStr b}")
-    | none => (s, "bad-op")
+    let nx := match nextTimeout s' with
+      | some k => toString k
+      | none => "-"
+    (s', s!"ok next={nx} " ++ showState s' d)
+  | ["deadline", rid, k] =>
+    match rid.toNat?, parseInt? k with
+    | some rid, some k => let (s', b) := setDeadline s rid k; (s', s!"ok {boolStr b}")
+    | _, _ => (s, "bad-op")
   | ["chunk", rid, seq, kind, msg, idx, total] =>
     match rid.toNat?, seq.toNat?, parseKind? kind, msg.toNat?, idx.toNat?, total.toNat? with
     | some rid, some seq, some k, some m, some i, some t =>
@@ -66,6 +74,8 @@ def dstep (s : State) (toks : List String) : State × String :=
         (s', (if o = .ok then "ok " else "err ") ++ showState s' d)
       else (s, "bad-op")
     | _, _, _, _, _, _ => (s, "bad-op")
+  | ["errmsg", "ack"] => (s, "err " ++ showState s [])
+  | ["errmsg", "hello"] => (s, "err " ++ showState s [])
   | ["errmsg", code] =>
     -- `StatusCode::from_u32(code)`: a good status is not an error, anything else is
     match code.toNat? with
